@@ -133,9 +133,17 @@ def run_unit(unit):
 
     res = Result()
     if unit["kind"] == "f64":
-        for lo, hi in unit["boxes"]:
+        shared_bounds = np.zeros((1, 2))
+        for bi, (lo, hi) in enumerate(unit["boxes"]):
             xs = inputs_for(lo, hi) + [0.0, 1e300, -1e300]
-            bounds = np.array([[lo, hi]], dtype=float)
+            if bi % 2:
+                # the caller keeps ONE bounds array and rewrites it for the next box
+                shared_bounds[0, 0], shared_bounds[0, 1] = lo, hi
+                bounds = shared_bounds
+                res.flags["bounds array reused for another box"] += 1
+            else:
+                bounds = None  # let the previous array be freed first: its id may be recycled
+                bounds = np.array([[lo, hi]], dtype=float)
             g = np.array(xs, dtype=float).reshape(-1, 1)
             for method in METHODS:
                 out = apply_bounds(g.copy(), bounds, method)
